@@ -21,7 +21,7 @@ var c19Extras = []struct{ name, text string }{
 	{"singleton-and-impl-free", "$S = { n: int, s: str };\nfn get(self: $S) -> int { self.n }\nfn main() { $S.n = 4; println(get(), $S.s); }\n"},
 	{"match-default-and-literals", "fn main() {\n    let x = 3;\n    println(match x { 1 => \"one\", 2 => \"two\", _ => \"many\" });\n    println(match \"a\" { \"a\" => 1, _ => 2 });\n    println(match true { false => 0, _ => 9 });\n}\n"},
 	{"anyobject-literal", "fn main() {\n    let o = new { ? };\n    o.set(\"k\", 1);\n    println(o.keys());\n}\n"},
-	{"float-literals", "fn main() {\n    println(2.0, 0.5, 100000000000000000000.0, 0.0000001, 1f, 3.25 * 2.0);\n}\n"},
+	{"float-literals", "fn main() {\n    println(2.0, 0.5, 100000000000000000000.0, 0.0000001, 1f, 3.25 * 2.0);\n    println(1000000000000000.0, 1234567890123456.0, 9007199254740993.0, 4611686018427387904.0, 9223372036854775807.0, 9900000000000000000.0, 18446744073709551616.0, -9223372036854775808.0);\n}\n"},
 	{"nested-blocks-and-tail", "fn main() {\n    let v = { let a = 1; { let b = 2; a + b } };\n    println(v);\n    { println(\"inner\"); }\n}\n"},
 	{"object-keys-strings", "fn main() {\n    let o = new { \"key one\": 1, plain: 2 };\n    println(o.plain);\n}\n"},
 	{"types-complex", "type A = { l: [int], o: ?str, n: { x: float } };\nfn mk() -> A { new { l: [1], o: ?\"s\", n: new { x: 1.5 } } }\nfn main() { let a = mk(); println(a.l, a.o, a.n.x); }\n"},
